@@ -440,6 +440,11 @@ class OpsMixin:
                     return True
                 return self.kind_test(v, kn)
             if isinstance(v, TNode):
+                if v.kind == "$Store":
+                    # the storage form chosen by the namespace (a walrus or a call)
+                    return self.decide(f"storeform:{'|'.join(sorted(kn))[:40]}")
+                if v.kind.startswith("$"):
+                    return self.decide(f"isinstance:{v.kind}:{'|'.join(sorted(kn))[:40]}")
                 return v.kind in kn
             if isinstance(v, (Cst, PList, PTuple, PDict, Obj, UPrim, Str, Fresh)):
                 return False
